@@ -115,6 +115,48 @@ func (gbf GenBankFields) Slice(start, end int) interface{} {
 	return gbf
 }
 
+// Rotate moves the base ranges of the references by n positions around a
+// circular sequence of the given length. A range that comes to span the
+// origin is written as two ranges.
+func (gbf GenBankFields) Rotate(n, length int) interface{} {
+	if length <= 0 {
+		return gbf
+	}
+	if n %= length; n < 0 {
+		n += length
+	}
+
+	prefix := gbf.Molecule.Counter()
+	parser := parseReferenceInfo(prefix)
+
+	refs := make([]Reference, len(gbf.References))
+	copy(refs, gbf.References)
+	for i, ref := range refs {
+		result, err := parser.Parse(pars.FromString(ref.Info))
+		if err != nil {
+			continue
+		}
+		ss := []string{}
+		for _, loc := range result.Value.([]gts.Ranged) {
+			start, end := loc.Start, loc.End
+			if end <= length && end-start < length {
+				start = (start + n) % length
+				end = start + loc.End - loc.Start
+			}
+			if end <= length || loc.End > length {
+				ss = append(ss, fmt.Sprintf("%d to %d", start+1, end))
+			} else {
+				ss = append(ss, fmt.Sprintf("%d to %d", start+1, length))
+				ss = append(ss, fmt.Sprintf("%d to %d", 1, end-length))
+			}
+		}
+		refs[i].Info = fmt.Sprintf("(%s %s)", prefix, strings.Join(ss, "; "))
+	}
+	gbf.References = refs
+
+	return gbf
+}
+
 // ID returns the ID of the sequence.
 func (gbf GenBankFields) ID() string {
 	if gbf.Version != "" {
